@@ -1,9 +1,82 @@
-"""Per-property configuration of the checks (names, residuals, assumptions)."""
+"""Per-property configuration of the checks: claimed level, what is proved, residuals, case-volume scales."""
 
 COMMON_ASSUME = [
-    "Impl model is tied to the Rust by differential correspondence on generated cases, not by proof",
-    "tables and constants are re-extracted from /repo on every run by tools/translate.py",
-    "Rust std pieces (u16 parsing/printing, split, HashMap, ArrayVec) are modelled",
+    "the hand-written Impl model is tied to the Rust by differential correspondence on generated cases (sampled), not by proof",
+    "tables and constants are re-extracted from /repo on every run by tools/translate.py (trusted)",
+    "Rust std pieces (u16 parsing/printing, split, HashMap, ArrayVec, swap_bytes, reverse_bits, count_ones) are modelled",
+    "the Spec layer (OwlModel/Spec) is the statement of the rules; validated against published perft counts",
 ]
 
-PROPS = {f"C{i:02d}": {"level": "proof", "assumptions": list(COMMON_ASSUME), "partial": [], "proved": ""} for i in range(1, 21)}
+DIFF = ("differential: the real library, the Lean implementation model and the Lean specification oracle are run on the "
+        "same generated cases; any impl/oracle disagreement is a failing input, any impl/model disagreement breaks the tie")
+
+
+def P(level, proved, partial, technique, design, scale_q=1.0, scale_t=1.0):
+    return {"level": level, "proved": proved, "partial": partial, "technique": technique, "design_ref": design,
+            "assumptions": list(COMMON_ASSUME), "scale": {"quick": scale_q, "thorough": scale_t}}
+
+
+PROPS = {
+    "C01": P("exploration", "none yet (backbone lemmas make_consistent / unmake_make are used by C04/C05)",
+             ["legal_gen_all_mem", "prefilter soundness", "checker exactness"],
+             "Lean Spec oracle (mailbox rules) + Lean Impl model, differential against the real generators; D1 family enumerated",
+             "§6 C01", 0.5),
+    "C02": P("exploration", "none yet", ["safe_reach_inv", "makeLike_ok_iff", "makeLike_no_trap"],
+             "differential: five move-like inputs × positions against Spec.Legal / Spec.San.denotes; re-validation and unchanged-on-error observed on the implementation",
+             "§6 C02", 0.5),
+    "C03": P("exploration", "none yet (make_refines_apply pending)", ["make_refines_apply", "counters_no_wrap"],
+             "differential: make_move_unchecked vs Spec.apply field by field on every legal move", "§6 C03"),
+    "C04": P("proof", "unmake_make: for every board whose derived state is consistent and every move satisfying the per-kind "
+             "precondition MakeOk (implied by well-formed+semilegal, true for the null move), unmake(make b mv) = b in all fields "
+             "(cells, side, rights, ep, both counters, hash, white, black, all, 13 piece sets); nested sequences by induction",
+             ["MakeOk from (well-formed ∧ semilegal ∧ Shape) is shown per kind only for the kinds listed in Props/C04"],
+             "Lean 4 theorem about the Impl model of do_make_move/do_unmake_move (all 10 move kinds), tied by differential correspondence",
+             "§5, §6 C04"),
+    "C05": P("proof", "make_consistent: make_move_unchecked preserves (stored hash, colour sets, combined set, 13 piece sets) = "
+             "from-scratch recomputation, for all 10 kinds; unmake restores; key-table facts (distinct keys, PIECES[0]=0, castling "
+             "deltas) decided by the kernel on the extracted Zobrist table",
+             ["single_feature_diff_hash_ne assembled only for the cases listed in Props/C05"],
+             "Lean 4 invariant proof (Consistent b := b = buildBoard b.r) + kernel-decided facts on the extracted Zobrist table",
+             "§5, §6 C05"),
+    "C06": P("exploration", "none yet", ["wellformed_iff_spec", "semilegal_iff_gen", "gen_iff_spec"],
+             "differential: all 532,480 tuples for well-formedness (exhaustive, bitmap per kind×cell) and semilegality on sampled positions vs Spec.geomPossible / Spec.pseudoMoves",
+             "§6 C06"),
+    "C07": P("exploration", "none yet", ["has_legal_moves_iff", "insufficient_iff", "calc_outcome_eq"],
+             "differential vs Spec.outcomes (relational: any applicable reason of the right tier); thresholds and masks re-extracted from source",
+             "§6 C07"),
+    "C08": P("exploration", "none yet", ["parse_format_raw", "format_canonical"],
+             "differential: independent grammar-style FEN reader (Spec.Fen.read) on the implementation's output; parse-format-parse stability observed on the implementation",
+             "§6 C08"),
+    "C09": P("exploration", "none yet", ["san_sound", "san_of_move_standard", "san_roundtrip"],
+             "differential vs Spec.San.write / Spec.San.denotes (declarative spellings)", "§6 C09", 0.6, 1.0),
+    "C10": P("exploration", "none yet", ["uci_text_roundtrip", "uci_semilegal_iff"],
+             "differential: all 20,481 UCI strings × sampled positions vs existence in Spec move sets", "§6 C10", 0.5),
+    "C11": P("exploration", "none yet", ["validate_ok_iff", "validate_normalises"],
+             "differential vs Spec.ValidRaw / Spec.normalise / Spec.Holds on raw boards of every rejection family", "§6 C11"),
+    "C12": P("exploration", "none yet", ["P_total for the eight parsers"],
+             "byte-level Impl model of all parsers with explicit trap results, differential incl. exhaustive short strings and multi-byte UTF-8; panics observed under catch_unwind",
+             "§6 C12", 1.0),
+    "C13": P("exploration", "none yet", ["ChainInv preserved"],
+             "differential: random push/pop/outcome scripts vs Spec replay (start, accepted moves, outcome)", "§6 C13"),
+    "C14": P("exploration", "none yet", ["repeat_count_eq", "chain_outcome_eq"],
+             "differential vs Spec.chainOutcomes (relational) and Spec.passes; thresholds re-extracted", "§6 C14"),
+    "C15": P("proof", "rook/bishop lookups exact for all 64 squares × all 2^64 occupancies (kernel-decided over every submask of the "
+             "extracted masks, lifted by walk-congruence and submask completeness); king/knight/pawn tables; alignment and "
+             "strictly-between tables for all 4096 pairs", [],
+             "Lean 4 theorems over tables regenerated from the build under test (decide +kernel over 107,648 submask cases + lifting lemmas)",
+             "§6 C15"),
+    "C16": P("exploration", "none yet", ["is_cell_attacked_iff", "cell_attackers_eq"],
+             "differential vs Spec.attackers on every square and both colours", "§6 C16"),
+    "C17": P("exploration", "none yet", ["WalkerInv", "styled_list_eq"],
+             "differential: walker op strings, uci list rebuild, 18 renderings vs Spec.render / replay", "§6 C17"),
+    "C18": P("exploration", "none yet", ["legal_mirrorV on Spec"],
+             "metamorphic on the implementation (A = B after mirroring) + model", "§6 C18"),
+    "C19": P("exploration", "none yet", ["sites_in_range", "semilegal_count_le_256 (unproved extremal clause)"],
+             "debug-build run (std unsafe-precondition checks, arrayvec debug_assert) on max-mobility positions; count via safe Vec sink vs Spec",
+             "§6 C19"),
+    "C20": P("proof", "index/text round trips for every value of every finite type; parsers accept exactly the documented spellings (all byte "
+             "strings, for coord/cell/colour); rights set algebra; bitboard operations = set operations; ascending iteration (as a filter); "
+             "named rank/file/diag/antidiag/light/dark constants contain exactly the named squares (extracted values); shift/add/flips vs geometry",
+             ["bit-loop models (Iter::next, deposit_bits, flips via swap_bytes/reverse_bits) are differential-only so far"],
+             "Lean 4 theorems (decide over the finite types, BitVec lemmas, decide +kernel on extracted constants)", "§6 C20"),
+}
